@@ -617,6 +617,11 @@ func (g *fnGen) store(st *state, a *addr, val string, instr ssa.Instruction) {
 		st.regs[a.reg] = g.define("r", g.R.sortOf(deref(a.reg.Type())), g.writePath(cur, a.path, val))
 	case a.isElem:
 		g.frameObligation(st, "elem", a.base, g.elemArrayName(a.elemT), instr)
+		if g.ct != nil && g.ct.Flags["writes-only-fresh-slices"] {
+			// the function builds its results in memory of its own: an element store never lands in a backing
+			// array that existed when it was entered (its receiver's or an argument's)
+			g.oblige(st, "fresh-write", g.anchor(instr.Pos(), "elem store"), instr.Pos(), "", S(">=", a.base, g.entry.alloc), "element store goes to a backing array allocated by this call")
+		}
 		g.writeElem(st, a.elemT, a.base, a.idx, val)
 	case a.isField:
 		if a.sharedDecl != nil {
